@@ -74,7 +74,9 @@ type c08Dim struct {
 
 // Every dimension's default is "absent" (action default: allow).
 var c08Dims = []c08Dim{
-	{"proto", []string{"tcp", "udp", "icmp", "sctp#"}}, // '#' = given by number; icmp = icmp (family 4) / icmpv6 (family 6)
+	// '#' = given by number; icmp = icmp (family 4) / icmpv6 (family 6). A NAMED icmp/icmpv6 protocol pins the rule's
+	// IP version the way felix/calc does (ipVersionToProtoIPVersion); the numeric form does not.
+	{"proto", []string{"tcp", "udp", "icmp", "icmp#", "sctp#"}},
 	{"notProto", []string{"tcp", "udp#"}},
 	{"srcNet", []string{"1", "2", "3", "mix"}},
 	{"dstNet", []string{"1", "2", "3"}},
@@ -94,7 +96,7 @@ var c08Dims = []c08Dim{
 	{"notSrcNamed", []string{"1"}},
 	{"notDstNamed", []string{"1"}},
 	{"icmp", []string{"t", "tc"}},
-	{"notIcmp", []string{"t", "tc"}},
+	{"notIcmp", []string{"t", "tc", "t0"}}, // t0: negated type WITHOUT the ICMP protocol filled in (the API only requires it for "icmp")
 	{"action", []string{"deny", "pass", "log"}},
 	{"ipVersion", []string{"4", "6"}},
 }
@@ -162,6 +164,11 @@ func c08Proto(v string, family int) *proto.Protocol {
 			return &proto.Protocol{NumberOrName: &proto.Protocol_Name{Name: "icmpv6"}}
 		}
 		return &proto.Protocol{NumberOrName: &proto.Protocol_Name{Name: "icmp"}}
+	case "icmp#":
+		if family == 6 {
+			return &proto.Protocol{NumberOrName: &proto.Protocol_Number{Number: 58}}
+		}
+		return &proto.Protocol{NumberOrName: &proto.Protocol_Number{Number: 1}}
 	}
 	return nil
 }
@@ -172,7 +179,7 @@ func c08Build(s c08Shape) (r *proto.Rule, ok bool) {
 	r = &proto.Rule{Action: "allow"}
 	n := c08Nets[s.Family]
 	needPorts := s.get("srcPorts") != "" || s.get("dstPorts") != "" || s.get("notSrcPorts") != "" || s.get("notDstPorts") != ""
-	needICMP := s.get("icmp") != "" || s.get("notIcmp") != ""
+	needICMP := s.get("icmp") != "" || (s.get("notIcmp") != "" && s.get("notIcmp") != "t0")
 	pv := s.get("proto")
 	if needPorts && needICMP {
 		return nil, false
@@ -180,14 +187,14 @@ func c08Build(s c08Shape) (r *proto.Rule, ok bool) {
 	if needPorts {
 		if pv == "" {
 			pv = "tcp" // dependency filled in, does not count as a chosen dimension
-		} else if pv == "icmp" {
+		} else if pv == "icmp" || pv == "icmp#" {
 			return nil, false
 		}
 	}
 	if needICMP {
 		if pv == "" {
 			pv = "icmp"
-		} else if pv != "icmp" {
+		} else if pv != "icmp" && pv != "icmp#" {
 			return nil, false
 		}
 	}
@@ -243,7 +250,7 @@ func c08Build(s c08Shape) (r *proto.Rule, ok bool) {
 		r.Icmp = &proto.Rule_IcmpTypeCode{IcmpTypeCode: &proto.IcmpTypeAndCode{Type: 8, Code: 1}}
 	}
 	switch s.get("notIcmp") {
-	case "t":
+	case "t", "t0":
 		r.NotIcmp = &proto.Rule_NotIcmpType{NotIcmpType: 3}
 	case "tc":
 		r.NotIcmp = &proto.Rule_NotIcmpTypeCode{NotIcmpTypeCode: &proto.IcmpTypeAndCode{Type: 3, Code: 1}}
@@ -256,6 +263,18 @@ func c08Build(s c08Shape) (r *proto.Rule, ok bool) {
 		r.IpVersion = proto.IPVersion_IPV4
 	case "6":
 		r.IpVersion = proto.IPVersion_IPV6
+	}
+	if pv == "icmp" {
+		// what Felix's calculation graph hands to the dataplane: a named ICMP protocol fixes the IP version
+		// (calc.ipVersionToProtoIPVersion); the API rejects a contradicting explicit ipVersion.
+		want := proto.IPVersion_IPV4
+		if s.Family == 6 {
+			want = proto.IPVersion_IPV6
+		}
+		if r.IpVersion != proto.IPVersion_ANY && r.IpVersion != want {
+			return nil, false
+		}
+		r.IpVersion = want
 	}
 	return r, true
 }
@@ -624,6 +643,8 @@ func c08Positive3(r *proto.Rule, ipv int) *proto.Rule {
 	return cp
 }
 
+var c08Out vOutcomes
+
 type c08Stats struct {
 	evals, yes, no, unspec int64
 }
@@ -698,9 +719,11 @@ func c08Run(c *vk.Ctx, rr *c08Renderers, cs c08Case, prep *c08Prepared, st *c08S
 			key = "C08:ipt-protocol-and-notprotocol-unloadable"
 		case "nft-bare-header-field":
 			key = "C08:nft-icmp-type-code-unloadable"
+		case "icmp-match-needs-icmp-proto":
+			key = "C08:ipt-icmp-match-without-icmp-protocol-unloadable"
 		}
 		c.Violation(key, c08Detail{Case: cs, Rule: vk.JSON(rule), Rendered: b.Lines(), Why: le.Error()})
-		c.Outcome("unloadable/" + cs.Kind + "/" + le.Class)
+		c08Out.add(c, "unloadable/"+cs.Kind+"/"+le.Class)
 		if le.Class != "nft-bare-header-field" {
 			return true
 		}
@@ -808,7 +831,7 @@ func c08Families(s c08Shape) []int {
 			return []int{4, 6}
 		}
 	}
-	if s.get("proto") == "icmp" {
+	if s.get("proto") == "icmp" || s.get("proto") == "icmp#" {
 		return []int{4, 6}
 	}
 	return fams
@@ -961,7 +984,7 @@ func TestVerif_C08(t *testing.T) {
 						}
 					}
 					for o := range outcomes {
-						c.Outcome(fmt.Sprintf("%s/%s/ref=%s/taken=%v/nflog=%d", o.kind, o.action, o.ref, o.taken, o.nflogs))
+						c08Out.add(c, fmt.Sprintf("%s/%s/ref=%s/taken=%v/nflog=%d", o.kind, o.action, o.ref, o.taken, o.nflogs))
 					}
 					mu.Lock()
 					if !ok {
@@ -997,6 +1020,7 @@ func TestVerif_C08(t *testing.T) {
 		c.Add("ref_yes", total.yes)
 		c.Add("ref_no", total.no)
 		c.Add("ref_unspecified", total.unspec)
+		c08Out.publish(c)
 		fmt.Printf("INFO C08 rules=%d (rule,ipVersion) pairs=%d renderings=%d packets=%d ref yes/no/unspecified=%d/%d/%d\n", len(jobs), states, renderings, total.evals, total.yes, total.no, total.unspec)
 		if dump != nil {
 			var lines []string
